@@ -1,4 +1,5 @@
 import AsherahVerif.Proofs.EnvResCloseAll
+import AsherahVerif.Proofs.EnvResRoleHist
 /-
 C09 — protected key memory is released: per call for DRKs, on Close for cached keys.
 
@@ -116,6 +117,24 @@ theorem drk_released (T : CTab) (H : List Nat) (x : Ctx) (p ik : Nat) (hik : ik 
     (∀ ik' dk data w', (decryptRow ik' dk data w').2.secrets.length = w'.secrets.length) :=
   have h := drkPart_released T H x p ik hik w hi
   ⟨h.1, h.2, fun ik' dk data w' => decryptRow_no_secret ik' dk data w'⟩
+
+/-- **drk_released over histories**, with the ghost classification `ρ` of key materials by creation
+site (Props/C03 `wrap_discipline`; `Role.data` = handed out by the `CreateRandom` of an
+`EncryptPayload`): at every quiescent point of a well-formed history — so in particular right after
+every encrypt / decrypt, whatever it returned and whatever the faults — every secret that holds a
+data-key material has been closed exactly once and was not touched afterwards; and the keys under
+which the encrypts of the history encrypted their payloads are exactly such `data` materials. -/
+theorem drk_released_history (t : Int) (ops : List Op) (hv : validFrom (World.init t) ops) (hnb : CapsPos ops) :
+    ∃ ρ : Nat → Option Role,
+      (∀ (pre : List Op) (s p : Nat) (fl : List Fault) (post : List Op), ops = pre ++ .encrypt s p fl :: post →
+        ∀ k q f, Call.aeadEnc k (.payload q) f ∈ (applyOp (runOps (World.init t) pre).2 (.encrypt s p fl)).2.log →
+          ρ k = some .data) ∧
+      (∀ (i : Nat) (sx : Secret), (runOps (World.init t) ops).2.secrets[i]? = some sx → ρ sx.mat = some .data →
+        sx.closes = 1 ∧ sx.aac = 0) := by
+  obtain ⟨ρ, _, h2, h3⟩ := (TQ.init t).runOps ops
+  have hq := resInv_reachable t ops hv hnb
+  exact ⟨ρ, fun pre s p fl post heq k q f hc => h3 pre s p fl post heq _ hc,
+    fun i sx hs hd => data_secrets_closed hq h2 i sx hs hd⟩
 
 /-- at the level of public operations: after an `encrypt` / `decrypt` on an open session of a
 well-formed history, every secret that is still live — in particular every one the operation
